@@ -3,7 +3,7 @@
    by Tokenize, toSQLPosition (tab = 4 columns, one column per byte), getLocation, the position mapping of the
    token converter and Parser.currentLocation.  [bs] is any input (any bytes), offsets are byte offsets. *)
 From Coq Require Import List Arith NArith Bool.
-From GV Require Import Model.Loc Proofs.LocP.
+From GV Require Import Model.Loc Proofs.LocP Model.Cost Proofs.LocCostP.
 Import ListNotations.
 Local Open Scope nat_scope.
 
@@ -52,6 +52,13 @@ Proof. exact loc_exact_chars. Qed.
 (* an offset past the end of input is reported as the end of input *)
 Theorem C05_loc_clamped : forall bs i, length bs <= i -> to_loc bs i = to_loc bs (length bs).
 Proof. exact loc_clamped. Qed.
+
+(* the code since d9a9811 answers successive queries from a resume point (Model/Cost.v [incr_run], proved equal to the
+   rescanning form for every query list in Proofs/CostP.v): started from the empty resume point Tokenize installs, it
+   answers [to_loc] for every list of queried offsets in any order — all theorems of this file are about that code *)
+Theorem C05_resume_point_form_is_to_loc : forall bs qs,
+  fst (Cost.incr_run (line_starts bs) (wd_of bs) (length bs) Cost.lstate0 qs) = map (to_loc bs) qs.
+Proof. exact incr_run_is_to_loc. Qed.
 
 (* getLocation (exported Position.Location) agrees with toSQLPosition wherever no tab precedes on the line *)
 Theorem C05_get_location_agrees : forall bs i s, i <= length bs -> is_line_start bs i s ->
@@ -123,6 +130,7 @@ Print Assumptions C05_loc_inside.
 Print Assumptions C05_loc_exact_ascii.
 Print Assumptions C05_loc_exact_chars.
 Print Assumptions C05_loc_clamped.
+Print Assumptions C05_resume_point_form_is_to_loc.
 Print Assumptions C05_get_location_agrees.
 Print Assumptions C05_spans_ordered_loc.
 Print Assumptions C05_spans_one_based_strict.
